@@ -248,7 +248,7 @@ def cancel_history(ttl_q, k, which):
     return [Case(line, line, ('cancelled-sweep', min(k, 3), which), fail, {'op': 'cancelled-sweep', 'ttl': ttl_q, 'k': k, 'which': which})]
 
 
-def sched_history(rng, ttl_q, fixed=None):
+def sched_history(rng, ttl_q, fixed=None, mixed=False):
     """correlator operations interleaved at their suspension points under a schedule drawn by the harness: every
     send_error hook call blocks until the schedule resumes its operation; meanwhile other operations (put of a probe or
     of a new request, get for a late / in-time / unknown response) start and suspend in turn.  The same schedule is run
@@ -261,11 +261,36 @@ def sched_history(rng, ttl_q, fixed=None):
         k = rng.randrange(1, 6)
         t = 100
         put_at = {}
+        # mixed: what is in the store when the operations start is not only unsegmented submit_sm: keep-alive probes and
+        # the segments of one message too - sweeping those out calls no hook (a probe: never; a segment: only the one that
+        # settles its message), so the sweep does not give up control there
+        shapes = ['plain'] * k
+        if mixed:
+            shapes = [rng.choice(('plain', 'probe', 'seg', 'seg')) for _ in range(k)]
+            if fixed:
+                shapes = list(fixed)[:k] + shapes[len(fixed):]
+            n_seg = shapes.count('seg')
+            if n_seg == 1:
+                shapes[shapes.index('seg')] = 'probe'
+                n_seg = 0
+        seg_no = 0
+        submits = []
         for i in range(1, k + 1):
             t += rng.choice((1, 1, ttl_q // 2))
-            ln, out = sim.op_put(t, sim.submit(i, 50 + i, 0))
+            if shapes[i - 1] == 'probe':
+                msg = sim.request('enq', i)
+            elif shapes[i - 1] == 'seg':
+                seg_no += 1
+                msg = sim.submit(i, 50, 0, sar=(7, seg_no, n_seg))
+                submits.append(i)
+            else:
+                msg = sim.submit(i, 50 + i, 0)
+                submits.append(i)
+            ln, out = sim.op_put(t, msg)
             put_at[i] = t
             cases.append(Case(ln, out, None))
+        if not submits:
+            submits = [900]         # nothing a submit_sm_resp could belong to: the responses are for unknown numbers
         clock = t + rng.choice((1, ttl_q // 2, ttl_q + 5, 2 * ttl_q))
         n_ops = rng.randrange(1, 5)
         ops = []
@@ -276,7 +301,7 @@ def sched_history(rng, ttl_q, fixed=None):
             elif kind == 'submit':
                 ops.append(('P', sim.submit(20 + j, 80 + j, 0)))
             elif kind == 'resp':
-                ops.append(('G', sim.resp('submitresp', rng.randrange(1, k + 1), 0, 'idx')))
+                ops.append(('G', sim.resp('submitresp', rng.choice(submits) if mixed else rng.randrange(1, k + 1), 0, 'idx')))
             else:
                 ops.append(('G', sim.resp('submitresp', 900 + j, 0, 'idy')))
         loop = sim.loop
@@ -395,6 +420,13 @@ def sched_history(rng, ttl_q, fixed=None):
                                                            ' '.join(e.split('@')[0] + '@' + e.split('@')[1] for e in evs)))
         for i in range(1, k + 1):
             n_to = ev_str.count('E=submit:%d:' % i)
+            if shapes[i - 1] == 'seg':
+                # a report under a segment's number is the report for its MESSAGE (made with the first segment stored): at
+                # most one, whatever was matched
+                if n_to > 1 and fail is None:
+                    fail = 'the segmented message was reported as timed out %d times under the schedule %s' % (
+                        n_to, ' '.join(e.split('@')[0] + '@' + e.split('@')[1] for e in evs))
+                continue
             n_m = sum(1 for oi, (kind, msg) in enumerate(ops) if kind == 'G' and msg.sequence_num == i and state['results'].get(oi) is not None)
             if n_to + n_m > 1 and fail is None:
                 fail = 'request %d: %d time-out reports and %d matched responses under the schedule %s' % (i, n_to, n_m, ' '.join(e.split('@')[0] + '@' + e.split('@')[1] for e in evs))
@@ -430,6 +462,16 @@ def generate(rng, tier):
     # hooks; dropped connections) judged by the time-out clauses alone
     from corr import c01s
     yield from c01s.generate(rng, 240 if thorough else 60, which='c14')
+    # schedules over a store that holds probes and segments too (a stream of their own, drawn last: the cases above are
+    # what they were); first the directed ones: a probe / an open segment swept out in front of a plain request
+    import random as _random
+    rng2 = _random.Random(rng.random())
+    for fixed in (('probe', 'plain'), ('seg', 'plain', 'seg'), ('plain', 'probe', 'plain'), ('seg', 'seg', 'plain')):
+        for ttl in (Q, 15 * Q):
+            for _ in range(3):
+                yield from sched_history(rng2, ttl, fixed=fixed, mixed=True)
+    for _ in range(300 if thorough else 80):
+        yield from sched_history(rng2, rng2.choice((Q, Q * 5 // 2, 15 * Q)), mixed=True)
 
 
 def replay(inp):
